@@ -1,7 +1,23 @@
 """C02: concurrent synchronous logging is exactly-once, mutually exclusive, order-preserving (engine vsched)."""
+import os
+import vlib
 import vsrun
 
 PROP = "C02"
+
+
+def after_async(tier):
+    """synchronous mode REACHED FROM an asynchronous phase: messages accepted while no application object exists stay queued until the
+    stop delivers them in the stopping thread; other threads log meanwhile and afterwards. Histories as in C04 (checks/c04.py)."""
+    hs = ["MLLR 3 1", "MLLR 3 2", "MLR 2 2", "MLLLR 4 1", "MLLRL 3 2", "AMLaLLR 6 1", "AMLaLLR 5 2", "MLLAR 4 1"]
+    if tier != "quick":
+        hs += ["MLLLR 3 2", "AMLLaLR 6 2", "MLARL 3 2", "AMLXL 3 2", "AMLaLR 5 2", "MLLR 2 2", "AMLaLLLR 7 2"]
+    p = os.path.join(vlib.BUILD, "c02-hist.txt")
+    os.makedirs(vlib.BUILD, exist_ok=True)
+    open(p, "w").write("\n".join(hs) + "\n")
+    b = 2 if tier == "quick" else 3
+    return [{"scenario": "c04xh", "hists-file": p, "bound": b, "glib": 1, "_shards": len(hs), "_nhist": len(hs)},
+            {"scenario": "c04xl", "hists-file": p, "bound": b - 1, "glib": 0, "_shards": len(hs), "_nhist": len(hs)}]
 
 
 def run(tier):
@@ -9,10 +25,12 @@ def run(tier):
         scs = [dict(scenario="c02l", p=2, m=2, bound=3), dict(scenario="c02l", p=3, m=2, bound=2), dict(scenario="c02l", p=2, m=3, bound=2),
                dict(scenario="c02b", p=2, m=2, bound=3), dict(scenario="c02b", p=3, m=2, bound=2), dict(scenario="c02b", p=4, m=1, bound=2)]
         dl = 150
+        scs += after_async(tier)
     else:
         scs = [dict(scenario="c02l", p=2, m=2, bound=4), dict(scenario="c02l", p=3, m=2, bound=3), dict(scenario="c02l", p=4, m=1, bound=3),
                dict(scenario="c02b", p=2, m=2, bound=4), dict(scenario="c02b", p=3, m=2, bound=3), dict(scenario="c02b", p=4, m=2, bound=2), dict(scenario="c02b", p=5, m=1, bound=2)]
         dl = 1500
+        scs += after_async(tier)
     return vsrun.vs_check(
         PROP, tier, scs, deadline_s=dl, min_outcomes=2,
         race_scenarios=[dict(scenario="c02b", p=2, m=2, bound=1), dict(scenario="c02l", p=2, m=2, bound=1), dict(scenario="c02b", p=3, m=1, bound=1)] if tier == "quick" else
@@ -21,7 +39,9 @@ def run(tier):
              "calling process() of a bare OwnThreadHandler<Pipeline> that was never moved to a thread) through [probe-in, SeqNumberAttr, DuplicateFilter, PrettyFormatter, sink A, "
              "sub-pipeline{filter even producers, sink B}, probe-out]; probes and sinks contain yield points (handlers of arbitrary duration); oracle on EVERY execution: in-flight count "
              "between the probes never exceeds 1, every message reaches every qualifying sink exactly once, per-producer order, seq_number 0,1,2.. in delivery order, no deadlock; "
-             "distinct_nontrivial = distinct delivery orders observed",
+             "in c02l the last message of producer 0 is a fatal one (the logger flushes its sinks for it: send and flush of a sink must never overlap). Scenarios c04x*: synchronous mode reached from an "
+             "asynchronous phase - operation histories (move, log without an application object so that messages stay queued, stop) with a second thread logging 1-2 messages from every position: no two "
+             "threads inside a sink, exactly once, per-thread order, first-in-first-out in real time; distinct_nontrivial = distinct delivery orders observed",
         assumptions=vsrun.VS_ASSUMPTIONS + ["lost updates inside the stateful handlers are excluded through the mutual-exclusion invariant (their fields are touched only between the probes)"])
 
 
